@@ -88,6 +88,21 @@ def gen_cases(ctx):
                      "cache 1 0 0\n"])
         o = {"verbose": rng.choice([0, 1, 2]), "processes": rng.choice([2, 3])}
         cases.append(cw.Case(w, o))
+    # outcomes that depend on state surviving --repeat iterations: every bad part raises only the first time
+    for i in range(8 if ctx.quick() else 200):
+        w = worlds.gen_world(rng, n_layers=rng.choice([1, 2, 3]), tests_per_layer=(1, 3),
+                             kinds=["pass", "pass", "fail", "error", "subFail", "errTearDown"], p_fault=0.0, p_write=0.0)
+        for t in w["tests"]:
+            t["expectFail"] = False
+            for p_ in cw.parts_of(t):
+                if p_.get("exc") in ("fail", "error"):
+                    p_["once"] = True
+        o = {"verbose": rng.choice([0, 1]), "processes": rng.choice([1, 1, 2]), "repeat": rng.choice([2, 3])}
+        if rng.random() < 0.4:
+            cand = [l for l in w["layers"] if l["kind"] != "unit" and l["tearDown"]]
+            if cand:
+                rng.choice(cand)["tearDownFaults"] = [[999999, 2]]
+        cases.append(cw.Case(w, o))
     # children that die
     for i in range(16 if ctx.quick() else 300):
         w = worlds.gen_world(rng, n_layers=rng.choice([2, 3]), tests_per_layer=(1, 3), kinds=["pass"], p_fault=0.0,
